@@ -50,7 +50,7 @@ VARIANTS = ('plain', 'unbalanced', 'offset', 'small_scale', 'large_scale',
 
 def cases(tier, seed):
   out = []
-  nds = 3 if tier == 'quick' else 12
+  nds = 3 if tier == 'quick' else 40
   for ei, name in enumerate(E.ALL):
     dss = common.ds_specs(seed, 'C03' + name, nds,
                           dmax=5 if tier == 'quick' else 8,
@@ -72,7 +72,7 @@ def cases(tier, seed):
         out.append({'est': name, 'params': cfg, 'ds': ds,
                     'seed': (seed * 7 + di) % 1000})
       # numeric hyper-parameters drawn inside their documented ranges
-      for h in range(2 if tier == 'quick' else 12):
+      for h in range(2 if tier == 'quick' else 40):
         r = rng_for('c3h', seed, name, di, h)
         cfg = dict(full[int(r.randint(len(full)))])
         hp = configs.random_hyper(name, ds['d'], ds['classes'], r)
